@@ -34,6 +34,7 @@ var ProgramPool = []struct {
 	{"cmd/go", nil}, // toolchain program: version = Go version
 	{"example.com/other", []string{"v1.0.0", "devel"}},
 	{"example.com/local.tool", []string{"v1.0.0"}}, // its counter files are named local.tool@...: like local reports
+	{"example.com/other/sub", []string{"v1.0.0"}},  // its path continues another program's: ("example.com/other", "sub/plain") is not ("example.com/other/sub", "plain")
 }
 
 var GoVersionPool = []string{"go1.21.0", "go1.22.1", "devel"}
@@ -47,6 +48,7 @@ var LocalCounterPool = []string{
 	"editor:{vscode,vim}", "plain", "plain2", "plai", "go/invocations", "go/invocation", "flag:-json", "flag:{-json}",
 	"crash/crash", "crash/other", // plain counters named like approved stack counters
 	"signal:os:kill", "signal:os", "signal:kill", "signal:", "signal:none", // buckets that contain a colon, and near-misses of them
+	"sub/plain", "sub/go/invocations", "sub/editor:vim", // approved for the program example.com/other/sub under their last part only
 }
 
 var LocalStackPool = []string{
@@ -56,6 +58,7 @@ var LocalStackPool = []string{
 	"plain\nmain.main:+1,+0x1", // a stack counter whose first line is an approved plain counter
 	"crash\nmain.main:+1,+0x1",
 	"crash/other\nmain.main:+9,+0x90",
+	"sub/crash/crash\nmain.main:+2,+0x20",
 }
 
 var CfgCounterPool = []string{"editor:{vscode,vim}", "plain", "go/invocations", "flag:{-json,-v}", "editor:{emacs}", "signal:{os:kill,os:term,none}"}
